@@ -38,15 +38,25 @@ Theorem C14_none : forall k server user secret w r,
   auth_sasl k server user secret w r = ([], ErrPermanent).
 Proof. exact auth_sasl_no_common. Qed.
 
-(* What "advertised" means on the features element: only <mechanism/> children in
-   the SASL namespace count; a child of <mechanisms/> in any other namespace, whatever
-   it is called and whatever it contains, advertises nothing. *)
+(* What "advertised" means on the features element: only <mechanism/> children in the SASL
+   namespace count, each by its character data without the XML white space around it (the name
+   is an xs:NMTOKEN: a server that writes its features indented advertises the same names); a
+   child of <mechanisms/> in any other namespace, whatever it is called and whatever it
+   contains, advertises nothing. *)
 Theorem C14_advertised : forall (children : list fchild) (m : str),
-  In m (advertised children) <-> In (s_ns_sasl, s_mechanism, m) children.
+  In m (advertised children) <-> exists text, In (s_ns_sasl, s_mechanism, text) children /\ m = trim text.
 Proof. exact advertised_spec. Qed.
 
+(* trimming takes nothing but white space at the two ends: a name that has none there is itself
+   (so PLAIN and X-OAUTH2 are advertised by exactly the texts that trim to them) *)
+Theorem C14_trim_clean : forall l : str,
+  match l with c :: _ => is_xml_ws c = false | [] => True end ->
+  match rev l with c :: _ => is_xml_ws c = false | [] => True end ->
+  trim l = l.
+Proof. exact trim_clean. Qed.
+
 Theorem C14_foreign_child_ignored : forall k children user secret w r,
-  (forall m, In m (cred_mechs k) -> ~ In (s_ns_sasl, s_mechanism, m) children) ->
+  (forall m text, In m (cred_mechs k) -> In (s_ns_sasl, s_mechanism, text) children -> m <> trim text) ->
   auth_sasl_features k children user secret w r = ([], ErrPermanent).
 Proof. exact foreign_child_ignored. Qed.
 
@@ -58,7 +68,8 @@ Proof. exact foreign_child_ignored. Qed.
    features element advertise all their mechanisms, in document order. *)
 Theorem C14_advertised_in_features : forall (nodes : list fnode) (m : str),
   In m (advertised_in nodes) <->
-  exists children, In (s_ns_sasl, s_mechanisms, children) nodes /\ In (s_ns_sasl, s_mechanism, m) children.
+  exists children text, In (s_ns_sasl, s_mechanisms, children) nodes /\
+    In (s_ns_sasl, s_mechanism, text) children /\ m = trim text.
 Proof. exact advertised_in_spec. Qed.
 
 Theorem C14_lists_concatenate : forall a b : list fnode,
@@ -66,8 +77,8 @@ Theorem C14_lists_concatenate : forall a b : list fnode,
 Proof. exact advertised_in_app. Qed.
 
 Theorem C14_nothing_advertised_nothing_sent : forall k nodes user secret w r,
-  (forall m children, In m (cred_mechs k) -> In (s_ns_sasl, s_mechanisms, children) nodes ->
-                      ~ In (s_ns_sasl, s_mechanism, m) children) ->
+  (forall m children text, In m (cred_mechs k) -> In (s_ns_sasl, s_mechanisms, children) nodes ->
+                           In (s_ns_sasl, s_mechanism, text) children -> m <> trim text) ->
   auth_sasl_nodes k nodes user secret w r = ([], ErrPermanent).
 Proof. exact nodes_no_sasl_list. Qed.
 
@@ -235,6 +246,9 @@ Example C14_example :
                     ([117; 114; 110; 58; 120], s_mechanisms, [([117; 114; 110; 58; 120], s_mechanism, s_XOAUTH2)]);
                     (s_ns_sasl, s_mechanism, []);
                     (s_ns_sasl, s_mechanisms, [(s_ns_sasl, s_mechanism, s_PLAIN)])] = [[83]; s_PLAIN]
+  (* a pretty-printed list: " PLAIN\n" advertises PLAIN, and PLAIN is what the <auth/> names *)
+  /\ fst (auth_sasl_features CPassword [(s_ns_sasl, s_mechanism, [32; 80; 76; 65; 73; 78; 10])] [97] [98] WOk RSuccess)
+     = [auth_element s_PLAIN (plain_payload [97] [98])]
   (* only the SASL <success/> is success *)
   /\ reply_of_name (Generated.ns_sasl, Parser.s_success) [] = RSuccess
   /\ reply_of_name (Generated.ns_client, Parser.s_success) [] = RReadErr
@@ -246,6 +260,7 @@ Print Assumptions C14_mech_by_kind.
 Print Assumptions C14_written.
 Print Assumptions C14_none.
 Print Assumptions C14_advertised.
+Print Assumptions C14_trim_clean.
 Print Assumptions C14_foreign_child_ignored.
 Print Assumptions C14_advertised_in_features.
 Print Assumptions C14_lists_concatenate.
